@@ -439,6 +439,19 @@ func (rn *runner) placeSweep() {
 			rn.sweepReq("v2Search", "v2", "alice", "BASIC", "POST", "base1", "/points/search", b, k%3 == 0, "place."+pl.name+"."+lf.name)
 		}
 	}
+	// every nesting inside every nesting (a composite as the filter of a leaf, a filtered leaf inside a composite, a
+	// filter inside a filter ...): the five nestings pairwise, with the key violations and one well-formed leaf
+	nest := []string{"and", "or", "flat-filter", "vamana-filter", "text-filter"}
+	key := []named{leaves[0], leaves[3], leaves[4], leaves[6], leaves[7]}
+	for _, outer := range nest {
+		for _, inner := range nest {
+			for _, lf := range key {
+				k++
+				b := Obj("query", place(outer, place(inner, lf.mk())), "limit", Int(10))
+				rn.sweepReq("v2Search", "v2", "alice", "BASIC", "POST", "base1", "/points/search", b, k%3 == 0, "place."+outer+"."+inner+"."+lf.name)
+			}
+		}
+	}
 }
 
 // straySweep: the collection whose schema entries carry parameter blocks of other types than the declared one,
